@@ -6,20 +6,21 @@ import GoNeat.Model.Compat
 
 namespace GoNeat
 
-def listMax (l : List Int) : Option Int := l.foldl (fun acc x => match acc with | none => some x | some m => some (if x > m then x else m)) none
+/-- `x` occurs in the other genome -/
+def isMatch (ys : List Int) (x : Int) : Bool := decide (x ∈ ys)
+/-- `x` is unmatched and lies beyond every innovation number of the other genome (vacuously so if it has none) -/
+def isExcess (ys : List Int) (x : Int) : Bool := !decide (x ∈ ys) && ys.all (fun y => decide (y < x))
+/-- `x` is unmatched and some innovation number of the other genome lies above it -/
+def isDisjoint (ys : List Int) (x : Int) : Bool := !decide (x ∈ ys) && ys.any (fun y => decide (x < y))
 
-/-- E, D, M from the innovation-number lists: a gene is matching if its number occurs in the other list,
-    excess if it lies beyond the other list's maximum (or the other list is empty), disjoint otherwise -/
+/-- E, D, M of the NEAT formula for two lists of innovation numbers -/
 def specCounts (a b : List Int) : Counts :=
-  let cls (xs ys : List Int) : Nat × Nat :=   -- (excess, disjoint) contributed by xs
-    xs.foldl (fun (acc : Nat × Nat) x =>
-      if ys.contains x then acc
-      else match listMax ys with
-        | none => (acc.1 + 1, acc.2)
-        | some m => if x > m then (acc.1 + 1, acc.2) else (acc.1, acc.2 + 1)) (0, 0)
-  let ca := cls a b
-  let cb := cls b a
-  { excess := ca.1 + cb.1, disjoint := ca.2 + cb.2, matching := (a.filter (b.contains ·)).length }
+  { excess := a.countP (isExcess b) + b.countP (isExcess a),
+    disjoint := a.countP (isDisjoint b) + b.countP (isDisjoint a),
+    matching := a.countP (isMatch b) }
+
+def Counts.add (c d : Counts) : Counts :=
+  { excess := c.excess + d.excess, disjoint := c.disjoint + d.disjoint, matching := c.matching + d.matching }
 
 /-- W̄: mean |Δ mutation number| over matching genes (0 when none match) — Float version for the driver -/
 def specMutDiffMean (a b : List (Gene Float)) : Float :=
